@@ -36,8 +36,8 @@ Item(q, d) == [q |-> q, d |-> d]
 ItemLists ==
   {<<Item(q, d)>> : q \in QU, d \in DU}
   \cup (IF MaxItems < 2 THEN {}
-        ELSE {<<Item(q1, d1), Item(q2, d2)>> :
-                q1 \in QU, q2 \in QU \ {q1}, d1 \in DU, d2 \in DU})
+        ELSE {<<Item(p[1], d1), Item(p[2], d2)>> :
+                p \in {x \in QU \X QU : x[1] # x[2]}, d1 \in DU, d2 \in DU})
 
 Use(loc, q) == [loc |-> loc, q |-> q]
 Q1 == CHOOSE q \in QU : \A p \in QU : q <= p
